@@ -425,6 +425,7 @@ def run(ctx, replay=None):
             break
         if "ok" in rj:
             impl[i] = rj            # judge the compiled result where there is one
+    mode_diffs = []
     if dres is None or len(dres) != len(dir_idx):
         done = len(dres) if dres else 0
         ctx.report("compiled em_update_matrix child died (rc=%s) on direct case %d: %s" % (dinfo["rc"], done, dinfo["tail"][-300:]),
@@ -433,8 +434,8 @@ def run(ctx, replay=None):
         for i, r in zip(dir_idx, dres):
             ri = impl[i]
             if ("ok" in r) != ("ok" in ri) or ("ok" in r and any(not close(a, b, 1e-12, 1e-15) for a, b in zip(r["ok"], ri["ok"]))):
-                ctx.report("em_update_matrix: compiled and interpreted execution differ: %s vs %s" % (str(r)[:200], str(ri)[:200]),
-                           {"stage": "oracle", "case": cases[i], "compiled": r, "interpreted": ri})
+                mode_diffs.append(("em_update_matrix: compiled and interpreted execution differ: %s vs %s" % (str(r)[:200], str(ri)[:200]),
+                                   {"stage": "oracle", "case": cases[i], "compiled": r, "interpreted": ri}))
             impl[i] = r
     ctx.coverage["modes"] = {"NUMBA_DISABLE_JIT=1": len(impl), "compiled_fit": len(jit), "compiled_em_direct": len(dres or []),
                              "compiled_wall_s": {k: v["wall_s"] for k, v in jit_info.items()},
@@ -446,6 +447,8 @@ def run(ctx, replay=None):
         d = (judge_direct if c["kind"] == "em_direct" else judge_fit)(ctx, c, r, model.get(i), stats)
         if d is not None:
             corr_bad.append((c, d))
+    for what, rep in mode_diffs[:3]:          # after the property-level reports
+        ctx.report(what, rep)
     ctx.coverage["rule"] = ("whole fit_transform (4 vectorizers) x n_iter 0-3 x epsilon {0,.05,.2,.5}: 45% corpora of increasing "
                             "token runs (a pruned largest-column cell that a later iteration looks up while the next row starts "
                             "with that column), the rest random C03-style cases; em_update_matrix called directly on random CSR "
